@@ -16,7 +16,7 @@ for p in claimed:
         m = re.match(r'\s+(\w+)\s+VAC\s+([0-9.]+)s\s+(\S+)\s+(\S+/VAC/return\d+)', l)
         if m and m.group(4) not in seen:
             seen.add(m.group(4))
-            if m.group(1) == 'unsat':
+            if m.group(1) == 'unsat' and '.lemma_' not in m.group(4) and '.Lemma' not in m.group(4):  # failure branches of lemmas are meant to be dead
                 dead[m.group(4)] = p
 path = os.path.join(V, 'dead_returns.json')
 if '--update' in sys.argv:
